@@ -318,7 +318,12 @@ func (s *Style) PrintString(str string) string {
 		c := str[i]
 		switch {
 		case r == utf8.RuneError && w == 1:
-			fmt.Fprintf(&b, `\x%02x`, c)
+			// a byte that is not UTF-8: only expressible as a byte escape
+			if rich && s.R.Intn(2) == 0 {
+				fmt.Fprintf(&b, `\%03o`, c)
+			} else {
+				fmt.Fprintf(&b, `\x%02x`, c)
+			}
 		case c == quote:
 			b.WriteByte('\\')
 			b.WriteByte(quote)
@@ -348,7 +353,16 @@ func (s *Style) PrintString(str string) string {
 				fmt.Fprintf(&b, `\u%04x`, c)
 			}
 		case r >= 0x80:
-			if rich && s.R.Intn(3) == 0 {
+			if rich && s.R.Intn(4) == 0 {
+				// byte escapes of the UTF-8 encoding denote the same string
+				for k := 0; k < w; k++ {
+					if s.R.Intn(2) == 0 {
+						fmt.Fprintf(&b, `\x%02x`, str[i+k])
+					} else {
+						fmt.Fprintf(&b, `\%03o`, str[i+k])
+					}
+				}
+			} else if rich && s.R.Intn(3) == 0 {
 				if r > 0xffff {
 					fmt.Fprintf(&b, `\U%08x`, r)
 				} else {
